@@ -115,9 +115,9 @@ def run_json(spec, acc):
     enc = NMEA2000Encoder()
     for d in defs:
         if d.fixed_layout:
-            cases = [(l, p, nb, None) for l, p, nb in fixed_cases(dbx, d, rng, 1 if quick else 6, 3 if quick else 100, 5 if quick else 300)]
+            cases = [(l, p, nb, None) for l, p, nb in fixed_cases(dbx, d, rng, 1 if quick else 10, 3 if quick else 400, 5 if quick else 1500)]
         else:
-            cases = list(variable_cases(dbx, d, rng, 12 if quick else 400))
+            cases = list(variable_cases(dbx, d, rng, 12 if quick else 2000))
         for k, (label, payload, nb, _) in enumerate(cases):
             dec = dec_ident if k % 3 == 0 else dec_plain
             line = wire.plain_line(rng.randrange(8), d.pgn, 9, 255, payload.to_bytes(nb, "little"))
